@@ -405,7 +405,8 @@ def g_src(r, fault_rate=0.0, nbytes_hint=200):
         if d["via"] == "path":
             d["fault"] = {"kind": "missing"} if k < 0.5 else {"kind": "eof", "at": r.randint(0, nbytes_hint)}
         else:
-            d["fault"] = {"kind": "eio", "at": 1} if k < 0.5 else {"kind": "eof", "at": r.randint(0, nbytes_hint)}
+            # an error on the 2nd/3rd read call only fires if the code under test reads in pieces
+            d["fault"] = {"kind": "eio", "at": r.choice([1, 1, 2, 3])} if k < 0.5 else {"kind": "eof", "at": r.randint(0, nbytes_hint)}
     return d
 
 
@@ -1497,7 +1498,7 @@ def gen_op_event(r: random.Random, name: str, deck: int = 0) -> dict:
 
 
 def gen_sink(r: random.Random, fault_rate=0.0, nwrites=300):
-    sink = r.choice(["seekable", "seekable", "unseekable", "path", "samepath"])
+    sink = r.choice(["seekable", "seekable", "unseekable", "path", "samepath", "reused"])
     d = {"sink": sink}
     if sink not in ("path", "samepath") and r.random() < fault_rate:
         k = r.random()
